@@ -77,15 +77,15 @@ Proof. reflexivity. Qed.
    the current source by harness/gen (Gen/Footprint.v), are exactly the ones the models account for: the three sites of
    ParseRealtime and the three of ParseStatic are the adversary's sites above (the two of BuildJournal are C15's); the
    package variables are compiled regexps, constant tables and templates — no cache, no "last seen" state ---- *)
-Example C06_range_sites_modelled : range_sites = [
-  ("journal/journal.go", "BuildJournal", "activeTrips");
-  ("journal/journal.go", "BuildJournal", "trips");
-  ("realtime.go", "ParseRealtime", "tripsById");
-  ("realtime.go", "ParseRealtime", "vehiclesByID");
-  ("realtime.go", "parseAlert", "informedRoutesFromTripIDs");
-  ("static.go", "ParseStatic", "serviceIdToService");
-  ("static.go", "parseScheduledStopTimes", "idToTrip");
-  ("static.go", "parseShapes", "shapeIDToRowData")].
+Example C06_range_sites_modelled : range_over_map = [
+  ("journal/journal.go", "activeTrips");
+  ("journal/journal.go", "trips");
+  ("realtime.go", "informedRoutesFromTripIDs");
+  ("realtime.go", "tripsById");
+  ("realtime.go", "vehiclesByID");
+  ("static.go", "idToTrip");
+  ("static.go", "serviceIdToService");
+  ("static.go", "shapeIDToRowData")].
 Proof. reflexivity. Qed.
 Example C06_package_state_modelled : package_vars = [
   ("extensions/nyctalerts/nyctalerts.go", "elevatorAlertIDRegex");
